@@ -403,15 +403,12 @@ Section Accepted1.
   Lemma accepted_stmts1 sp f ctx : forall ss E e acc s r s',
     frag_stmts1 (map fst E) ss e = true -> wf s -> env_ok E s ->
     foldM (fun (acc : option tyid) (st : stmt) => sr <- r_stmt (afix f) st ctx ;; unify_option G sp acc sr)
-          (to_block1 sp ss e) acc s = Ok (r, s') ->
+          (map (to_stmt1 sp) ss) acc s = Ok (r, s') ->
     wf s' /\ ext s s' /\ exists E', ty_stmts1 E ss = Some E' /\ env_ok E' s' /\ frag1 (map fst E') e = true.
   Proof.
-    induction ss as [|st ss IH]; intros E e acc s r s' Hf W HI H; unfold to_block1 in H; cbn [map app foldM] in H.
-    - apply bind_inv in H as (acc1 & s1 & H1 & H). injection H as <- <-.
-      assert (P : pres (sr <- r_stmt (afix f) (SStatementExpression (to_expr1 sp e) sp) ctx ;; unify_option G sp acc sr))
-        by (pose proof PG; pose proof (PA f); prs).
-      destruct (P _ _ _ W H1) as [W1 E1]. split; [assumption|]. split; [assumption|].
-      exists E. split; [reflexivity|]. split; [exact (env_ok_ext _ _ _ W E1 HI)|exact Hf].
+    induction ss as [|st ss IH]; intros E e acc s r s' Hf W HI H; cbn [map foldM] in H.
+    - injection H as <- <-. split; [assumption|]. split; [apply ext_refl|].
+      exists E. split; [reflexivity|]. split; [exact HI|exact Hf].
     - apply frag_stmts1_cons in Hf as [Hf1 Hf2].
       apply bind_inv in H as (acc1 & s1 & H1 & H).
       apply bind_inv in H1 as (sr & s2 & Hs & Hu).
@@ -436,11 +433,10 @@ Section Accepted1.
     expression_block G (afix f) sp (to_block1 sp ss e) ctx s = Ok ((r, ov), s') ->
     exists t v, ty_block1 [] ss e = Some t /\ ov = Some v /\ head s' v = Some (bty_head t).
   Proof.
-    intros Hf W H. unfold expression_block in H.
+    intros Hf W H. unfold expression_block, to_block1 in H. rewrite block_split_snoc in H. cbn [fst snd] in H.
     apply bind_inv in H as (r1 & s1 & H1 & H).
     assert (EO : env_ok [] s) by (intros x t L; discriminate).
     destruct (accepted_stmts1 sp f ctx ss [] e None s r1 s1 Hf W EO H1) as (W1 & E1 & (E' & Tys & EO' & Hfe)).
-    unfold to_block1 in H. rewrite last_stmt_snoc in H.
     apply bind_inv in H as ([vret v] & s2 & He & H).
     destruct (accepted_typed1 E' sp e Hfe _ _ _ _ _ W1 EO' He) as (W2 & E2 & (t & Ety & Hv)). cbn [snd] in Hv.
     apply bind_inv in H as (r' & s3 & Hu & H). injection H as <- <- <-.
